@@ -28,12 +28,16 @@ FAMILIES = dict(
     loopexc=("s", "while", "for", "trye", "tryf", "tryef", "break", "continue", "raise", "return"),
     fun=("s", "if", "for", "while", "def", "return"),
     ctx=("s", "if", "with", "for", "tryf", "return", "break", "raise"),
+    nestedtry=("s", "trye", "raise", "return"),
+    tryret=("s", "if", "trye", "return", "raise"),
+    tryfin=("s", "tryef", "tryf", "raise", "return"),
 )
 
 
 def enumerate_skeletons(max_stmts=4, max_d=3, max_len=2, loop_else=False, funcs=False, workers=8, timeout=600, allowed=ALL):
-    if loop_else and allowed is not ALL:
-        allowed = tuple(allowed) + tuple(x for x in ("whileelse", "forelse") if x not in allowed)
+    if loop_else and allowed is not ALL:      # loop-else variants only for families that have the loop itself
+        allowed = tuple(allowed) + tuple(x for x, base in (("whileelse", "while"), ("forelse", "for"))
+                                         if base in allowed and x not in allowed)
     res = tlc.run_tlc('MiniPyGen', GEN_CFG % (max_stmts, max_d, max_len, 'TRUE' if loop_else else 'FALSE',
                                               'TRUE' if funcs else 'FALSE', ', '.join('"%s"' % a for a in allowed)),
                       workers=workers, timeout=timeout, name='gen').require_ok('MiniPyGen')
@@ -43,7 +47,8 @@ def enumerate_skeletons(max_stmts=4, max_d=3, max_len=2, loop_else=False, funcs=
 
 
 class Decorator:
-    def __init__(self, rnd, names=('x', 'y'), simple_tests=0.8, closure_bias=False):
+    def __init__(self, rnd, names=('x', 'y'), simple_tests=0.8, closure_bias=False, balanced_exc=False):
+        self.pexc = 0.5 if balanced_exc else 0.85      # probability of class E1 for raise statements and handlers
         self.r = rnd
         self.names = list(names)
         self.simple_tests = simple_tests
@@ -156,7 +161,7 @@ class Decorator:
             if self.peek() == 'except':
                 self.take()
                 hname = r.choice(['', '', 'ex', r.choice(self.names)])
-                N[i - 1]['handlers'] = [dict(cls=1 if r.random() < 0.85 else 2, name=hname,
+                N[i - 1]['handlers'] = [dict(cls=1 if r.random() < self.pexc else 2, name=hname,
                                              body=self.block(b, fn, scope + (['ex'] if hname == 'ex' else [])))]
             if self.peek() == 'finally':
                 self.take()
@@ -168,7 +173,7 @@ class Decorator:
         if t == 'return':
             return b.node(kind='return', fn=fn, e=self.value(b, scope))
         if t == 'raise':
-            return b.node(kind='raise', fn=fn, exc=1 if r.random() < 0.85 else 2)
+            return b.node(kind='raise', fn=fn, exc=1 if r.random() < self.pexc else 2)
         if t == 'def':
             np_ = r.choice([0, 1, 1, 2])
             params = ['p', 'q'][:np_]
